@@ -296,6 +296,7 @@ def _get_single_args(*args):
 
 
 _re_condition = re.compile('(?<!~)[?*]')
+_re_wildcards = {'?': '.', '*': '.*'}
 
 
 def _xfilter(accumulator, test_range, condition, operating_range):
@@ -312,10 +313,11 @@ def _xfilter(accumulator, test_range, condition, operating_range):
                 _ = lambda v: re.escape(v.replace('~?', '?').replace('~*', '*'))
                 match = re.compile(''.join(sum(zip(
                     map(_, _re_condition.split(condition)),
-                    tuple(map(lambda v: '.%s' % v, it)) + ('',)
-                ), ()))).match
+                    tuple(map(_re_wildcards.get, it)) + ('',)
+                ), ())), re.IGNORECASE | re.DOTALL).fullmatch
                 f = lambda v: isinstance(v, str) and bool(match(v))
                 b = np.vectorize(f, otypes=[bool])(test_range['raw'])
+                b &= ~test_range['empty']  # A wildcard matches only text.
                 try:
                     return accumulator(operating_range[b])
                 except FoundError as ex:
@@ -364,7 +366,10 @@ _xfilter = np.vectorize(_xfilter, otypes=[object], excluded={0, 1, 3})
 def xfilter(accumulator, test_range, condition, operating_range=None):
     operating_range = test_range if operating_range is None else operating_range
     # noinspection PyTypeChecker
-    test_range = {'raw': replace_empty(test_range, '')}
+    test_range = {
+        'raw': replace_empty(test_range, ''),
+        'empty': np.asarray(test_range) == np.array(sh.EMPTY, dtype=object)
+    }
     res = _xfilter(accumulator, test_range, condition, operating_range)
     return res.view(Array)
 
